@@ -539,6 +539,8 @@ func init() {
 				add("k2-crashed-merge-then-merge", merge(base, p("k", 2, "ops", opPut, "dfs_lo", 60, "dfs_hi", 100, "crash2", 0, "aftermerge", 1, "tailops", opMerge)))
 				add("k2-btree-s2-mmap", merge(base, p("k", 2, "ops", opPut|opDelete, "dfs_lo", 60, "dfs_hi", 100, "crash2", 0, "index", 1, "shards", 2, "io", 1)))
 				add("second-generation-k1", merge(base, p("preput", 2, "premerge", 1, "k", 1, "ops", opPut|opDelete, "dfs_lo", 60, "dfs_hi", 100, "crash2", 0)))
+				// a finished merge that was NOT adopted (no restart) followed by another Merge in the same process
+				add("merge-merge-without-restart-k2", merge(base, p("preput", 1, "k", 2, "ops", opPut|opDelete|opMerge, "dfs_lo", 60, "dfs_hi", 100, "crash2", 0)))
 			} else {
 				add("k3-rot", merge(base, p("k", 3, "ops", opPut|opDelete, "dfs_lo", 60, "dfs_hi", 130)))
 				add("k2-batch", merge(base, p("k", 2, "ops", opPut|opBatch, "bmax", 1, "dfs_lo", 100, "dfs_hi", 150)))
